@@ -1397,6 +1397,7 @@ impl VectorEngine {
         for key in keys {
             let _ = self.store.delete(&key);
         }
+        self.invalidate_hnsw_cache(name);
 
         Ok(())
     }
@@ -2347,6 +2348,9 @@ impl VectorEngine {
             .collect();
 
         let count = keys.len();
+        if count > 0 {
+            self.invalidate_hnsw_cache("_default");
+        }
         for key in keys {
             self.store.delete(&key)?;
         }
@@ -2935,6 +2939,9 @@ impl VectorEngine {
                 }
             })
             .count();
+        if deleted > 0 {
+            self.invalidate_hnsw_cache("_default");
+        }
 
         Ok(deleted)
     }
@@ -3305,6 +3312,7 @@ impl VectorEngine {
         }
 
         self.store.put(storage_key, tensor)?;
+        self.invalidate_hnsw_cache("_default");
         Ok(())
     }
 
